@@ -282,13 +282,31 @@ fn exec_with(v: &Value, f: impl Fn(&RunCtx, &mut Outcome)) -> Outcome {
         Err(e) => return Outcome::skip(&e),
     };
     let listener = v["with_listener"] == true;
-    match crate::runworld::execute_run_with(&sc, None, listener) {
+    // an earlier run of the same commands in which the named members failed (C16: the history must not change
+    // how a group is started)
+    let prior: Option<RunScript> = v["prior_failed"].as_array().filter(|a| !a.is_empty()).map(|a| {
+        let failed: Vec<String> = a.iter().filter_map(|x| x.as_str().map(String::from)).collect();
+        let mut p = sc.script.clone();
+        p.env_actions.clear();
+        p.kill = None;
+        p.strategy = Strategy::PlanOrder;
+        for b in p.behav.iter_mut() {
+            b.early_exit = false;
+            b.outs.truncate(1);
+            b.code = if failed.contains(&b.target) { 1 } else { 0 };
+        }
+        p
+    });
+    match crate::runworld::execute_run_with(&sc, None, listener, prior.as_ref()) {
         Prepared::Skip(r) => Outcome::skip(&r),
         Prepared::Ctx(ctx) => {
             let mut out = Outcome::default();
             base_trace(&ctx, &mut out);
             if listener {
                 out.fault("log_tail_listener_attached_to_the_run", 1);
+            }
+            if prior.is_some() {
+                out.fault("earlier_run_with_failed_members_in_the_history", 1);
             }
             if ctx.trace.env_actions_done > 0 {
                 out.fault("command_file_made_executable_while_the_run_was_in_progress", ctx.trace.env_actions_done as u64);
@@ -540,6 +558,20 @@ impl Property for C16 {
         // one scenario in four runs with a `log tail` listener attached (members then also stream to it)
         let mut rng = Rng::new(scenario_seed(seed, "C16l", idx));
         v["with_listener"] = json!(rng.chance(1, 4));
+        // one scenario in eight has a history: an earlier run of the same commands in which a few (not all) members
+        // of the wide layer failed
+        if v["with_listener"] != true && rng.chance(1, 8) {
+            if let Ok(sc) = from_val(&v) {
+                let ws: Vec<String> = sc.spec.targets.iter().filter(|t| t.path.starts_with('w')).map(|t| t.path.clone()).collect();
+                if ws.len() >= 3 && sc.script.nofile.is_none() && sc.spec.cmd_files.iter().all(|c| c.exec) {
+                    let k = rng.range(1, (ws.len() / 2).max(1));
+                    let mut f = ws.clone();
+                    rng.shuffle(&mut f);
+                    f.truncate(k);
+                    v["prior_failed"] = json!(f);
+                }
+            }
+        }
         v
     }
     fn execute(&self, v: &Value) -> Outcome {
